@@ -399,6 +399,9 @@ def r3(repo, chk):
     ok = any(norm(v) == "list(self._spaces.values())" for st, t, v in ini.assigns(chain="self._loss.spaces"))
     chk.ob("R3", "_initialize hands every packet space to the recovery object that get_timer iterates", ok, "", ini.loc(ini.node))
 
+    dsp = Fn(repo, "quic.recovery:QuicPacketRecovery.discard_space")
+    clr = [st for st, t, v in dsp.assigns(suffix="ack_at") if isinstance(v, ast.Constant) and v.value is None and not dsp.lexical_guards(st, expand=False)]
+    chk.ob("R3", "discard_space drops the ACK deadline of the space it discards (nobody can send that ACK any more)", len(clr) == 1, "a stale deadline stays visible to get_timer for the rest of the connection", dsp.loc(dsp.node))
     for name, due_kind in (("_write_application", "due"), ("_write_handshake", "set")):
         fn = Fn(repo, CONN + name)
         ws = fn.calls(name="self._write_ack_frame")
@@ -414,6 +417,11 @@ def r3(repo, chk):
                 ok = set(mine) == {(f"{spv}.ack_at is not None", True)}
                 extra = [a for a in lg if a not in mine and a[0] != "True"]
             chk.ob("R3", f"{name}: the ACK is written exactly when the deadline is {due_kind}", ok and not extra, f"guards {lg}", fn.loc(w))
+            # ACK frames are not congestion controlled: no other frame writer (whose start_frame may raise
+            # QuicPacketBuilderStop for lack of window) runs before the ACK in the packet being built
+            loop0 = next((p for p in _ancestors(w) if isinstance(p, (ast.While, ast.For))), None)
+            earlier = [c for c in fn.calls() if call_name(c).startswith("self._write_") and call_name(c).endswith("_frame") and c is not w and (c.lineno, c.col_offset) < (w.lineno, w.col_offset) and (loop0 is None or inside(c, loop0))]
+            chk.ob("R3", f"{name}: the ACK frame is the first frame written into a packet", not earlier, f"{[call_name(c) for c in earlier]} run first: when the congestion window is exhausted their start_frame stops the builder and the due ACK is withheld until the window reopens", fn.loc(w))
             # nothing that leaves the loop / function may precede the ACK while it is due
             loop = next((p for p in _ancestors(w) if isinstance(p, ast.While)), None)
             exits = [s for s in fn.stmts(lambda s: isinstance(s, (ast.Break, ast.Return, ast.Continue)))]
